@@ -17,7 +17,7 @@ pub fn spec() -> Spec {
     Spec {
         prop: "C07",
         level: "exploration",
-        rule: "Independent ledger model written from the controller/token Solidity source (per exact ticker bytes: balances, allowances incl. 'spender == owner => unlimited' and the controller as intermediate spender, checked total supply, zero-address rules); the RPC methods lower-case the ticker, user calls use exact bytes. Every operation's success is predicted and compared with the receipt status; after every block brc20_balance, token.balanceOf, token.totalSupply and controller.getTickerAddress are compared with the model for every (pkscript/signer, ticker), and sum(balances) = supply = deposits - withdrawals. Operations: deposits, withdrawals (sufficient/exact/insufficient/unknown ticker), controller transfer/approve/transferFrom, direct token calls, adversarial mint/burn/ownership calls from inscriptions, signed transactions, a forwarder contract and eth_call as the indexer address; reorgs roll the model back. Ticker classes: ASCII, non-ASCII capitals, one byte, empty, longer than 32 bytes, and four tickers that differ only by surrounding (ASCII / ideographic) white space. Holders have pkscripts of four shapes (34, 22, 2 and 81 bytes) written in lower, upper and mixed-case hex; amounts include 0, 1, 2^64-1..2^64+8, 2^128-1, 2^128, 2^255, 2^256-2, 2^256-1. Non-trivial = operation whose predicted outcome depended on a non-zero balance or allowance; distinct by (op kind, predicted outcome, ticker class).",
+        rule: "Independent ledger model written from the controller/token Solidity source (per exact ticker bytes: balances, allowances incl. 'spender == owner => unlimited' and the controller as intermediate spender, checked total supply, zero-address rules); the RPC methods lower-case the ticker, user calls use exact bytes. Every operation's success is predicted and compared with the receipt status; after every block brc20_balance, token.balanceOf, token.totalSupply and controller.getTickerAddress are compared with the model for every (pkscript/signer, ticker), and sum(balances) = supply = deposits - withdrawals. Operations: deposits, withdrawals (sufficient/exact/insufficient/unknown ticker), controller transfer/approve/transferFrom, direct token calls, adversarial mint/burn/ownership calls from inscriptions, signed transactions, a forwarder contract and eth_call as the indexer address; reorgs roll the model back. Ticker classes: ASCII, non-ASCII capitals, one byte, empty, longer than 32 bytes, four tickers that differ only by surrounding (ASCII / ideographic) white space, a ticker ending in a capital sigma (context-sensitive lower-casing) and its neighbour ending in the medial form. Holders have pkscripts of four shapes (34, 22, 2 and 81 bytes) written in lower, upper and mixed-case hex; amounts include 0, 1, 2^64-1..2^64+8, 2^128-1, 2^128, 2^255, 2^256-2, 2^256-1. Non-trivial = operation whose predicted outcome depended on a non-zero balance or allowance; distinct by (op kind, predicted outcome, ticker class).",
         assumptions: vec!["the model is derived from the Solidity source shipped in the repository, not from the deployed bytecode".into()],
         exhaustive: false,
         min_nontrivial: 2,
@@ -137,6 +137,10 @@ fn tickers() -> Vec<TickerClass> {
         TickerClass { name: "ws-padded-right", spellings: vec!["ws ", "WS ", "Ws "], key: b"ws ".to_vec() },
         TickerClass { name: "ws-padded-left", spellings: vec![" ws", " WS"], key: b" ws".to_vec() },
         TickerClass { name: "ws-ideographic-space", spellings: vec!["ws\u{3000}", "WS\u{3000}"], key: "ws\u{3000}".as_bytes().to_vec() },
+        // context-sensitive lower-casing: a capital sigma at the end of a word becomes the final form
+        // (U+03C2), as in every Unicode-aware lower-casing; the ticker ending in the medial form is another one
+        TickerClass { name: "final-sigma", spellings: vec!["ΟΔΟΣ", "οδος", "Οδος", "ΟΔΟς"], key: "οδος".as_bytes().to_vec() },
+        TickerClass { name: "medial-sigma-at-end", spellings: vec!["οδοσ"], key: "οδοσ".as_bytes().to_vec() },
         TickerClass { name: "long", spellings: vec!["averyveryverylongtickernamewithmorethan32bytes", "AVeryVeryVeryLongTickerNameWithMoreThan32Bytes"], key: b"averyveryverylongtickernamewithmorethan32bytes".to_vec() },
     ]
 }
@@ -333,7 +337,9 @@ fn one_case(ctx: &WorkerCtx, rep: &mut WorkerReport, case_seed: u64) {
         let blk = (run.ts, format!("0x{:016x}{:048x}", 0xc07c07c07c07c07cu64, (case_seed << 16 >> 16) ^ run.uniq));
         let nops = rng.range(1, 6);
         for _ in 0..nops {
-            let c = &classes[rng.weighted(&[6, 3, 2, 1, 1])];
+            // every class takes part; plain ASCII most often
+            let weights: Vec<u64> = classes.iter().map(|c| match c.name { "ascii" => 6, "non-ascii" => 3, "one-byte" | "ws-plain" | "ws-padded-right" | "final-sigma" => 2, _ => 1 }).collect();
+            let c = &classes[rng.weighted(&weights)];
             let who = match rng.below(8) {
                 0 | 1 | 2 | 3 => Who::Pk(rng.below(4) as usize),
                 4 | 5 => Who::Signer(rng.below(2) as usize),
